@@ -764,7 +764,7 @@ pub fn run(tier: Tier, seed: u64, findings: &Findings) -> i32 {
     let cfg = RunCfg { prop: "C11", tier, seed };
     let check = C11;
     let mut report = super::run_regress(&check, &cfg, findings);
-    let cases = tier.pick(6000, 300_000);
+    let cases = tier.pick(24_000, 500_000);
     report.merge(engine::run_generated(&check, &cfg, cases, 8, 16, findings, 0));
     engine::finish(
         Finish {
